@@ -571,6 +571,7 @@ func (s *scope) createInstance(descriptor *Descriptor) (any, error) {
 
 		// Store every field under the descriptor this registration created for it
 		var primaryService any
+		stored := make([]*Descriptor, 0, len(registrations))
 		for _, reg := range registrations {
 			regDescriptor := s.outputDescriptor(descriptor, func(d *Descriptor) bool { return d.resultField == reg.Name })
 			if regDescriptor == nil {
@@ -590,6 +591,14 @@ func (s *scope) createInstance(descriptor *Descriptor) (any, error) {
 			}
 
 			s.setInstance(regDescriptor, key, reg.Value)
+			stored = append(stored, regDescriptor)
+		}
+
+		// A field the constructor left nil is remembered as nil in the scope, as a
+		// nil return value of a multi-return constructor is: asking for it later must
+		// not run the constructor again and replace the instances of its siblings
+		if descriptor.Lifetime == Scoped {
+			s.rememberNilOutputs(descriptor, stored)
 		}
 
 		if primaryService == nil {
@@ -673,6 +682,31 @@ func (s *scope) outputDescriptor(descriptor *Descriptor, isOutput func(*Descript
 		}
 	}
 	return nil
+}
+
+// rememberNilOutputs caches nil for every output of the registration that the
+// provider holds and that received no value from this construction.
+func (s *scope) rememberNilOutputs(descriptor *Descriptor, stored []*Descriptor) {
+	for _, output := range descriptor.outputs {
+		if !s.rootProvider.holds(output) {
+			continue
+		}
+		found := false
+		for _, d := range stored {
+			if d == output {
+				found = true
+				break
+			}
+		}
+		if found {
+			continue
+		}
+		s.instancesMu.Lock()
+		if s.instances != nil {
+			s.instances[instanceKey{Type: output.Type, Key: output.Key, Group: output.Group}] = nil
+		}
+		s.instancesMu.Unlock()
+	}
 }
 
 // shareInstance caches an instance under a further identity without tracking
